@@ -11,7 +11,7 @@ from itertools import product
 
 from . import terms as T
 
-I, R, S, B, TT, D, LI, LS, NOW = "I", "R", "S", "B", "T", "D", "LI", "LS", "NOW"
+I, R, S, B, TT, D, LI, LS, NOW, BV, TM = "I", "R", "S", "B", "T", "D", "LI", "LS", "NOW", "BV", "TM"
 
 
 class Sig:
@@ -59,10 +59,21 @@ def signatures(cap):
         sg.append(Sig(nm + ":TT", (TT, TT), B, _bin(op), ["cmp", "dt"]))
         sg.append(Sig(nm + ":TN", (TT, NOW), B, _bin(op), ["cmp", "dt", "now"]))
         sg.append(Sig(nm + ":DD", (D, D), B, _bin(op), ["cmp", "date"]))
-        if nm in ("eq", "ne"):
+        if cap.get("time"):
+            sg.append(Sig(nm + ":TMTM", (TM, TM), B, _bin(op), ["cmp", "time"]))
+        if nm in ("eq", "ne") and cap.get("boolcmp") == "restricted":
+            # only what the property statement lists: boolean functions compared to true/false, boolean fields/literals
+            sg.append(Sig(nm + ":BfLit", ("BF", "BLIT"), B, _bin(op), ["cmp", "boolcmp"]))
+            sg.append(Sig(nm + ":LitBf", ("BLIT", "BF"), B, _bin(op), ["cmp", "boolcmp"]))
+            sg.append(Sig(nm + ":BvBv", (BV, BV), B, _bin(op), ["cmp", "boolcmp"]))
+        elif nm in ("eq", "ne"):
             sg.append(Sig(nm + ":BB", (B, B), B, _bin(op), ["cmp", "boolcmp"]))
+            if not cap.get("bare_bool", True):
+                sg.append(Sig(nm + ":BvB", (BV, B), B, _bin(op), ["cmp", "boolcmp"]))
+                sg.append(Sig(nm + ":BBv", (B, BV), B, _bin(op), ["cmp", "boolcmp"]))
+                sg.append(Sig(nm + ":BvBv", (BV, BV), B, _bin(op), ["cmp", "boolcmp"]))
     for nm, op in (("eq", "Eq"), ("ne", "NotEq")):
-        for ty in (I, R, S, B, TT):
+        for ty in (I, R, S, B if cap.get("bare_bool", True) else BV, TT):
             sg.append(Sig("%s-null:%s" % (nm, ty), (ty,), B, lambda a, op=op: T.binop(op, a, T.NULL), ["nulltest"]))
             if cap.get("null_left"):
                 sg.append(Sig("null-%s:%s" % (nm, ty), (ty,), B, lambda a, op=op: T.binop(op, T.NULL, a), ["nulltest", "null-left"]))
@@ -75,6 +86,8 @@ def signatures(cap):
     # string functions
     for f in ("contains", "startswith", "endswith"):
         sg.append(Sig(f, (S, S), B, _call(f), ["strfn", "like"]))
+        if cap.get("boolcmp") == "restricted":
+            sg.append(Sig(f + ":BF", (S, S), "BF", _call(f), ["strfn", "like"]))
     sg.append(Sig("length", (S,), I, _call("length"), ["strfn"]))
     if cap.get("indexof", True):
         sg.append(Sig("indexof", (S, S), I, _call("indexof"), ["strfn"]))
@@ -86,11 +99,15 @@ def signatures(cap):
         sg.append(Sig("concat", (S, S), S, _call("concat"), ["strfn"]))
     if cap.get("matchesPattern"):
         sg.append(Sig("matchesPattern", (S, "RX"), B, _call("matchesPattern"), ["strfn", "regex"]))
+        if cap.get("boolcmp") == "restricted":
+            sg.append(Sig("matchesPattern:BF", (S, "RX"), "BF", _call("matchesPattern"), ["strfn", "regex"]))
     # date functions
     for f in ("year", "month", "day", "hour", "minute") + (("second",) if cap.get("second") else ()):
         sg.append(Sig(f, (TT,), I, _call(f), ["datefn"]))
     if cap.get("date", True):
         sg.append(Sig("date", (TT,), D, _call("date"), ["datefn"]))
+    if cap.get("time"):
+        sg.append(Sig("time", (TT,), TM, _call("time"), ["datefn"]))
     # math
     for f in ("round", "floor", "ceiling"):
         if cap.get(f, True):
@@ -117,7 +134,17 @@ DEFAULT_LEAVES = {
     LI: [T.lst(T.Int(0), T.Int(1)), T.lst(T.Int(3)), T.lst(T.Int(-2), T.Int(0), T.Int(3))],
     LS: [T.lst(T.Str("a"), T.Str("%")), T.lst(T.Str("a'b")), T.lst(T.Str(""), T.Str("A"))],
     "RX": [T.Str("^a"), T.Str("b$")],
+    TM: [("Time", "23:59:59"), ("Time", "12:30:00")],
 }
+
+
+def leaves_for(cap, base=None):
+    lv = dict(base or DEFAULT_LEAVES)
+    lv["BLIT"] = [T.Bool(True), T.Bool(False)]
+    if not cap.get("bare_bool", True):
+        lv[BV] = lv[B]
+        lv[B] = []
+    return lv
 
 
 class Enumerator:
